@@ -38,6 +38,8 @@ structure St where
   raws : List (String × RawCfg) := []
   /-- `mt … wire` decided that the port gets no verifier -/
   noVerifier : Bool := false
+  /-- seconds elapsed since the case started (advanced by `late`) -/
+  now : Int := 0
 deriving Inhabited
 
 def b01 (s : String) : Bool := s = "1"
@@ -155,7 +157,7 @@ def showRoutes (e : Gin.Engine) : String :=
 the auth middleware decides.  `none` = aborted with the given outcome. -/
 def throughAuth (st : St) (chain : List Gin.H) (r : Req) : Outcome ⊕ Option Token :=
   if chain.contains Gin.authHandler then
-    match authorize (factsOf st) st.mt 0 r with
+    match authorize (factsOf st) st.mt st.now r with
     | .accept t => .inr (some t)
     | o => .inl o
   else .inr none
@@ -242,7 +244,7 @@ def stepCore (st : St) : List String → St × String
     | some r =>
       let tag := if st.mt.tenants = [] then "auth " else "tenant "
       if st.noVerifier then (st, "auth no-verifier")
-      else (st, tag ++ showOutcome (authorize (factsOf st) st.mt 0 r))
+      else (st, tag ++ showOutcome (authorize (factsOf st) st.mt st.now r))
   | "srv" :: kind :: auth :: rest =>
     let (registry, cluster, keys) := match rest with
       | [r, c, k] => (b01 r, b01 c, hexList k)
@@ -271,6 +273,31 @@ def stepCore (st : St) : List String → St × String
          | .inl o => (st, "hit deny " ++ showDeny o)
          | .inr _ => (st, "hit pass"))
     | _, _ => (st, "bad-op")
+  | ["late", kind, method, path, x, a, tenant, dt] =>
+    -- the same request now and again `dt` seconds after the case started: the middleware keeps no
+    -- state, so the second answer is the decision at the later time (an expired token is refused
+    -- however often it was accepted before)
+    let hitAt (st : St) : Option String :=
+      match st.srvs.lookup kind, parseReq x a tenant with
+      | some (e, _), some r =>
+        match Gin.dispatch e method (hx path) with
+        | .redirect code => some ("redirect " ++ toString code)
+        | .route rt _ =>
+          (match throughAuth st rt.chain r with
+           | .inl o => some ("deny " ++ showDeny o)
+           | .inr _ => some "pass")
+        | .noRoute chain =>
+          (match throughAuth st chain r with
+           | .inl o => some ("deny " ++ showDeny o)
+           | .inr _ => some "pass")
+      | _, _ => none
+    match dt.toNat? with
+    | none => (st, "bad-op")
+    | some d =>
+      let st' := { st with now := (d : Int) }
+      match hitAt st, hitAt st, hitAt st' with
+      | some h1, some h1', some h2 => (st', "late " ++ h1 ++ " | " ++ h1' ++ " | " ++ h2)
+      | _, _, _ => (st, "bad-op")
   | ["fwd", kind, method, path, _node, x, a, tenant] =>
     -- `hit` with admin's `?forward=<node>` query: routing and the middleware do not look at it;
     -- an accepted request is then forwarded or handled locally ("pass" either way)
@@ -319,6 +346,24 @@ def stepCore (st : St) : List String → St × String
          (match throughAuth st chain r with
           | .inl o => (st, "conf " ++ showDeny o ++ " sel=none stamp=-")
           | .inr tok => (st, "conf " ++ confProxy st (proxyHTTPRoute tok "" "127.0.0.1" true) "200")))
+    | _, _ => (st, "bad-op")
+  | ["tcpx", _raw, path, _host, hostnp, isip, xep, x, a, tenant] =>
+    -- `GET <path>` on the proxy port with an arbitrary Host and `x-piko-endpoint`: the TCP route
+    -- takes its endpoint from the path parameter only; every other path is the no-route chain,
+    -- which takes it from the header, else the Host (a parameter gin captured on a partial match
+    -- is NOT an endpoint)
+    match st.srvs.lookup "proxy", parseReq x a tenant with
+    | some (e, _), some r =>
+      (match Gin.dispatch e "GET" (hx path) with
+       | .redirect code => (st, "conf " ++ toString code ++ " - sel=none stamp=-")
+       | .route rt ps =>
+         (match throughAuth st rt.chain r with
+          | .inl o => (st, "conf " ++ showDeny o ++ " sel=none stamp=-")
+          | .inr tok => (st, "conf " ++ confProxy st (proxyTCPRoute tok (ps.headD "")) "400"))
+       | .noRoute chain =>
+         (match throughAuth st chain r with
+          | .inl o => (st, "conf " ++ showDeny o ++ " sel=none stamp=-")
+          | .inr tok => (st, "conf " ++ confProxy st (proxyHTTPRoute tok (hx xep) (hx hostnp) (b01 isip)) "200")))
     | _, _ => (st, "bad-op")
   | ["reg", _raw, path, x, a, tenant] =>
     match st.srvs.lookup "upstream", parseReq x a tenant with
